@@ -187,6 +187,9 @@ def r22c(ctx, P):
                "score order wrong or missing" if not score_ok else "text tie-break wrong or missing"), "%s:%s" % (g.file, g.line))
 
 
+THOROUGH_FEATURES = ['r22a', 'r22b', 'r22c']
+
+
 def run(ctx, progs):
     P = progs.get("default")
     r22a(ctx, P)
